@@ -366,6 +366,16 @@ func monC16(c *drv.Ctx) {
 	// keeps its values, overwrites its own byte slices in place, and finds them as it left them after the join
 	c.Stage("concurrent-decoders", c.Pick(6, 40), false, concurrent)
 
+	// (3a'') a stream reader that is in the middle of a value (its peer stalls, then delivers the rest or hangs up)
+	// while other readers decode complete values: what those got stays theirs, whether the stalled read then
+	// fails or succeeds, and whatever is decoded later
+	c.Stage("decodes-during-a-stalled-read", c.Pick(3000, 40000), false, func(cs *drv.Case) {
+		span := cs.Idx%2 == 0
+		thrift.SetSpanCache(span)
+		defer thrift.SetSpanCache(false)
+		c16Stalled(cs, span)
+	})
+
 	// (3b) the allocator switch is flipped between two decodes (never concurrently): values obtained
 	// under either setting must stay intact and independent afterwards
 	c.Stage("toggle-between-decodes", c.Pick(300, 3000), false, func(cs *drv.Case) {
@@ -663,4 +673,101 @@ func c16Concurrent(cs *drv.Case, span bool) {
 	cs.Desc = M{"span_cache": span, "goroutines": G, "values_each": iters, "lengths": fmt.Sprint(cl)}
 	cs.Count(true, "conc", span, G, cl, cs.Idx)
 	cs.C.Obs("values decoded concurrently and re-checked after the join", int64(n))
+}
+
+// c16Stalled: reader A reads one value from a source that calls back between its chunks; inside those calls
+// (and afterwards) other readers decode values that are kept.
+func c16Stalled(cs *drv.Case, span bool) {
+	r := cs.R
+	L := []int{96, 1, 127, 128, 500, 5000, 16384, 20000}[r.Intn(8)]
+	enc := ref.U32(nil, uint32(L))
+	enc = append(enc, make([]byte, L)...)
+	c16Val(enc[4:], 7, 0)
+	fail := r.Intn(2) == 0
+	cut := len(enc)
+	if fail {
+		cut = 4 + r.Intn(L)
+		if r.Intn(8) == 0 {
+			cut = r.Intn(4)
+		}
+	}
+	type kept struct {
+		b []byte
+		s string
+		i int
+	}
+	var ks []kept
+	bad := ""
+	decodeOther := func() {
+		i := len(ks)
+		l := L
+		if r.Intn(2) == 0 {
+			l = 1 + r.Intn(300)
+		}
+		one := ref.U32(nil, uint32(l))
+		one = append(one, make([]byte, l)...)
+		c16Val(one[4:], 8, i)
+		br := thrift.NewBufferReader(bufiox.NewBytesReader(append(append([]byte(nil), one...), one...)))
+		b, err1 := br.ReadBinary()
+		s, err2 := br.ReadString()
+		br.Recycle()
+		if err1 != nil || err2 != nil || !c16ValIs(b, 8, i, false) || !c16ValIs([]byte(s), 8, i, false) || len(b) != l || len(s) != l {
+			bad = fmt.Sprintf("value #%d decoded by another reader came back wrong (err=%v/%v)", i, err1, err2)
+			return
+		}
+		ks = append(ks, kept{b: b, s: s, i: i})
+	}
+	during := 0
+	src := &doubles.Source{Data: enc, Len: len(enc), ErrAt: cut, Err: io.ErrUnexpectedEOF, Sched: []int{doubles.SchedSmall, doubles.SchedBuf, doubles.SchedRandom}[r.Intn(3)], R: r, Budget: 10*len(enc) + 100000}
+	src.Churn = func() {
+		if during < 12 && bad == "" {
+			during++
+			decodeOther()
+		}
+	}
+	ra := thrift.NewBufferReader(bufiox.NewDefaultReader(src))
+	var av []byte
+	var aerr error
+	asString := r.Intn(2) == 0
+	if asString {
+		var s string
+		s, aerr = ra.ReadString()
+		av = []byte(s)
+	} else {
+		av, aerr = ra.ReadBinary()
+	}
+	ra.Recycle()
+	cs.Desc = M{"span_cache": span, "stalled_value_len": L, "stream_cut_at": cut, "stalled_read_fails": fail, "decodes_during_the_stall": during}
+	if bad != "" {
+		cs.Fail("decode-wrong", M{"api": "BufferReader", "span_cache": span, "during": "another reader's stalled read"}, M{"message": bad})
+		return
+	}
+	if fail != (aerr != nil) {
+		cs.Fail("decode-wrong", M{"api": "BufferReader", "span_cache": span}, M{"message": fmt.Sprintf("the stalled read returned err=%v for a stream cut at %d of %d", aerr, cut, len(enc))})
+		return
+	}
+	if !fail && (len(av) != L || !c16ValIs(av, 7, 0, false)) {
+		cs.Fail("decoded-value-changed", M{"what": "value of the stalled reader", "span_cache": span}, M{"message": "the value whose read was interrupted by other readers' decodes is not what the stream held"})
+		return
+	}
+	for k := 0; k < 6; k++ {
+		decodeOther()
+	}
+	if bad != "" {
+		cs.Fail("decode-wrong", M{"api": "BufferReader", "span_cache": span, "during": "after the stalled read"}, M{"message": bad})
+		return
+	}
+	for _, k := range ks {
+		if !c16ValIs(k.b, 8, k.i, false) || !c16ValIs([]byte(k.s), 8, k.i, false) {
+			cs.Fail("decoded-value-changed", M{"what": "value decoded while another reader was mid-value", "span_cache": span}, M{"value_index": k.i, "decoded_during_the_stall": k.i < during, "stalled_read_failed": fail,
+				"message": fmt.Sprintf("value #%d (of %d, the first %d decoded while another reader was in the middle of a value) changed after that reader finished and later values were decoded", k.i, len(ks), during)})
+			return
+		}
+	}
+	if !fail && !c16ValIs(av, 7, 0, false) {
+		cs.Fail("decoded-value-changed", M{"what": "value of the stalled reader", "span_cache": span}, M{"message": "changed after later decodes"})
+		return
+	}
+	cs.Count(true, "stalled", span, L, cut, asString, during)
+	cs.C.Obs("values decoded while another reader was mid-value", int64(during))
 }
